@@ -156,6 +156,60 @@ def r2(repo, chk):
     txt = " ".join(norm(s) for s in c.stmts())
     ok = "encode_address(addr)" in txt and "original_destination_connection_id" in txt and "retry_source_connection_id" in txt and ".encrypt(" in txt
     chk.ob("R2", "create_token encrypts address, original DCID and retry SCID", ok, "", c.loc(c.node))
+    # the address a token is bound to includes every bit of the port: the port expression(s) of encode_address are evaluated
+    # (abstractly, over the arithmetic operators only) for all 65536 ports and must be injective
+    ea = Fn(repo, "quic.retry:encode_address")
+    rets = [r for r in ea.returns() if r.value is not None]
+    inj = False
+    detail = ""
+    if len(rets) == 1:
+        blist = [n for n in ast.walk(rets[0].value) if isinstance(n, ast.Call) and call_name(n) == "bytes" and n.args and isinstance(n.args[0], ast.List)]
+        if len(blist) == 1:
+            elts = blist[0].args[0].elts
+
+            def ev(e, port):
+                if isinstance(e, ast.Constant) and isinstance(e.value, int):
+                    return e.value
+                if isinstance(e, ast.Subscript) and norm(e) == "addr[1]":
+                    return port
+                if isinstance(e, ast.Name):
+                    for st in ea.stmts(lambda x: isinstance(x, ast.Assign)):
+                        for tg in st.targets:
+                            if isinstance(tg, ast.Tuple) and isinstance(st.value, ast.Tuple) and len(tg.elts) == len(st.value.elts):
+                                for a_, b_ in zip(tg.elts, st.value.elts):
+                                    if isinstance(a_, ast.Name) and a_.id == e.id:
+                                        return ev(b_, port)
+                            if isinstance(tg, ast.Tuple) and norm(st.value) == "addr" and len(tg.elts) == 2 and isinstance(tg.elts[1], ast.Name) and tg.elts[1].id == e.id:
+                                return port
+                    ds = ea.local_defs(e.id)
+                    if len(ds) == 1:
+                        d0 = ds[0]
+                        if isinstance(d0, ast.Subscript) and norm(d0) == "addr[1]":
+                            return port
+                        return ev(d0, port)
+                    return None
+                if isinstance(e, ast.BinOp):
+                    a, b = ev(e.left, port), ev(e.right, port)
+                    if a is None or b is None:
+                        return None
+                    ops = {ast.RShift: lambda: a >> b, ast.LShift: lambda: a << b, ast.BitAnd: lambda: a & b, ast.BitOr: lambda: a | b, ast.Mod: lambda: a % b if b else None, ast.FloorDiv: lambda: a // b if b else None, ast.Add: lambda: a + b, ast.Sub: lambda: a - b}
+                    f = ops.get(type(e.op))
+                    return f() if f else None
+                return None
+
+            seen_ = set()
+            okv = True
+            for port in range(65536):
+                t = tuple(ev(e, port) for e in elts)
+                if any(x is None or not (0 <= x <= 255) for x in t):
+                    okv = False
+                    detail = f"port {port} -> {t}"
+                    break
+                seen_.add(t)
+            inj = okv and len(seen_) == 65536
+            if okv and not inj:
+                detail = f"only {len(seen_)} distinct encodings for 65536 ports"
+    chk.ob("R2", "encode_address encodes every port differently (the token is bound to the full address)", inj, detail or "port bytes not recognised", ea.loc(ea.node))
     # the token's fields are written and read with the same length-prefix sizes, in the same order
     ws = [(norm(x.args[1]), norm(x.args[2])) for x in c.calls(name="push_opaque") if len(x.args) >= 3]
     rs_ = [(norm(vv.args[1]), norm(t)) for st, t, vv in v.assigns() if isinstance(vv, ast.Call) and call_name(vv) == "pull_opaque" and len(vv.args) >= 2] if hasattr(v, "assigns") else []
